@@ -10,6 +10,7 @@
 #include "hooks.hpp"
 
 #include <tao/pegtl.hpp>
+#include <tao/pegtl/must_if.hpp>
 #include <tao/pegtl/contrib/check_bytes.hpp>
 #include <tao/pegtl/contrib/if_then.hpp>
 #include <tao/pegtl/contrib/input_with_depth.hpp>
@@ -62,7 +63,8 @@ namespace T
       G_REMATCH = 16384, // rematch / minus construct a plain memory_input for the second phase
       G_MUST = 32768,   // must<> alone (also part of G_CONV)
       G_FILL = 65536,   // filler leaves for ill-formed grammar families (C11)
-      G_META = 131072   // action<> / control<> wrappers, raw_string with content rule
+      G_META = 131072,  // action<> / control<> wrappers, raw_string with content rule
+      G_PRED = 262144   // contrib predicates (also part of G_CONTRIB)
    };
 #ifndef VERIF_GROUPS
 #define VERIF_GROUPS ( T::G_CORE | T::G_HOLE )
@@ -415,9 +417,9 @@ namespace T
    A0( INT_MAX8, G_CONTRIB, ( p::maximum_rule< std::uint8_t > ) ) \
    A0( INT_MAX300, G_CONTRIB, ( p::maximum_rule< std::uint16_t, 300 > ) ) \
    A0( RAW, G_CONTRIB, ( raw_t ) ) \
-   A0( PRED_AND, G_CONTRIB, ( p::predicates_and< p::range< 'a', 'c' >, p::not_one< 'b' > > ) ) \
-   A0( PRED_NOT, G_CONTRIB, ( p::predicate_not< p::one< 'a' > > ) ) \
-   A0( PRED_OR, G_CONTRIB, ( p::predicates_or< p::one< 'a' >, p::one< 'c' > > ) ) \
+   A0( PRED_AND, ( G_CONTRIB | G_PRED ), ( p::predicates_and< p::range< 'a', 'c' >, p::not_one< 'b' > > ) ) \
+   A0( PRED_NOT, ( G_CONTRIB | G_PRED ), ( p::predicate_not< p::one< 'a' > > ) ) \
+   A0( PRED_OR, ( G_CONTRIB | G_PRED ), ( p::predicates_or< p::one< 'a' >, p::one< 'c' > > ) ) \
    T3( SEPARATED_SEQ, G_CONTRIB, w_separated_seq ) \
    T3( IF_THEN_ELSE_THEN, G_CONTRIB, w_if_then_else_then ) \
    B2( IF_THEN, G_CONTRIB, w_if_then ) \
@@ -1050,7 +1052,13 @@ namespace T
       }
       if( bad ) {
          ++L.c06;
-         const std::string cls = classify_pos_diff( g_begin, off, In::eol_t::ch, eager, got, e );
+         std::string cls = classify_pos_diff( g_begin, off, In::eol_t::ch, eager, got, e );
+         if( cls.empty() && !eager ) {
+            // known shape: rematch / minus build the input of the second phase from a bare pointer when tracking is lazy,
+            // so positions observed inside it count from the start of the re-matched text
+            for( const auto& f : L.frames )
+               if( f.kind == RK_NODE && ( tab[ f.rule ].op == REMATCH || tab[ f.rule ].op == REMATCH3 || tab[ f.rule ].op == MINUS ) ) cls = "lazy input: positions inside the second phase of rematch / minus are relative to the re-matched text";
+         }
          L.c06_msg = cls.empty() ? what + " differs from the prefix formula" : cls;
          L.c06_info = std::string( where ) + " of " + rule + ": offset " + std::to_string( off ) + " reported " + std::to_string( got.byte ) + ":" + std::to_string( got.line ) + ":" + std::to_string( got.column ) + " formula " + std::to_string( e.byte ) + ":" + std::to_string( e.line ) + ":" + std::to_string( e.column );
       }
@@ -1585,6 +1593,33 @@ namespace T
          mon_base< Rule, true, false >::log( E_UNWIND, in );
       }
    };
+
+   // ------------------------------------------------------------------ must_if controls (C05)
+   // ErrA: message table (a custom message for node<1>): every local failure of node<1> becomes a global one
+   // ErrB: explicit raise_on_failure for node<2>, no messages: default message
+   struct ErrA
+   {
+      template< typename Rule >
+      static constexpr const char* message = nullptr;
+   };
+   template<>
+   inline constexpr const char* ErrA::message< node< 1 > > = "custom message for n1";
+   struct ErrB
+   {
+      template< typename Rule >
+      static constexpr const char* message = nullptr;
+      template< typename Rule >
+      static constexpr bool raise_on_failure = ( rid< Rule >::kind == RK_NODE && rid< Rule >::v == 2 );
+   };
+   template< typename Rule >
+   using mon_errA = typename p::must_if< ErrA, mon, false >::template control< Rule >;
+   template< typename Rule >
+   using mon_errB = typename p::must_if< ErrB, mon, false >::template control< Rule >;
+   inline int g_errors = 0;  // 0 none, 1 ErrA, 2 ErrB (tells the reference which must_if table is in effect)
+   inline bool raises_on_failure( int I )
+   {
+      return ( g_errors == 1 && I == 1 ) || ( g_errors == 2 && I == 2 );
+   }
 
    // ------------------------------------------------------------------ running the implementation
    struct Real
